@@ -40,15 +40,17 @@ def graphs(thorough):
     return out
 
 
-def steepest(adj, elev, base):
+def steepest(adj, elev, base, mask=frozenset()):
     n = len(adj)
     rec = {}
     for i in range(n):
         rec[i] = i
-        if i in base:
+        if i in base or i in mask:
             continue
         best = None
         for nb in adj[i]:
+            if nb in mask:
+                continue
             if elev[nb] < elev[i] and (best is None or elev[nb] < elev[best]):
                 best = nb
         if best is not None:
@@ -57,8 +59,9 @@ def steepest(adj, elev, base):
 
 
 class PipeWorld(World):
-    def __init__(self, adj, base, gobj, bgs):
+    def __init__(self, adj, base, gobj, bgs, mask=frozenset()):
         self.adj = adj
+        self.mask = mask
         self.base = base
         self.gobj = gobj
         self.bgs = bgs        # (record, function used for new_obj)
@@ -74,7 +77,7 @@ class PipeWorld(World):
         if nm == "grid" and cls.endswith("flow_graph_impl"):
             return self.grid
         if nm == "is_masked":
-            return False
+            return it.rv(it.eval(args[0], frame)) in self.mask
         if nm == "is_base_level":
             return it.rv(it.eval(args[0], frame)) in self.base
         if nm == "neighbors" and "grid" in cls:
@@ -170,14 +173,15 @@ def _work(task):
     c = _CTX
     uname, thorough, levels, gfn, ap, bgrec, bgfn, route, meth = (c[k] for k in (
         "uname", "thorough", "levels", "gfn", "ap", "bgrec", "bgfn", "route", "meth"))
-    gname, adj, base = task
+    gname, adj, base = task[:3]
+    mask = frozenset(task[3]) if len(task) > 3 else frozenset()
     n = len(adj)
     out = []
     if True:
         bset = set(base)
         for elev in itertools.product(levels, repeat=n):
-            rec0 = steepest(adj, elev, bset)
-            if all(rec0[i] != i or i in bset for i in range(n)):
+            rec0 = steepest(adj, elev, bset, mask)
+            if all(rec0[i] != i or i in bset or i in mask for i in range(n)):
                 continue                      # no pit: nothing for the resolver to do
             for mname, rname in (("kruskal", "basic"), ("boruvka", "carve"), ("kruskal", "carve"), ("boruvka", "basic")):
                 if not thorough and (mname, rname) in (("kruskal", "carve"), ("boruvka", "basic")) and n > 3:
@@ -196,9 +200,9 @@ def _work(task):
                     "m_dfs_indices": PyVec([-1] * n), "m_bfs_indices": PyVec([-1] * n),
                     "m_bfs_levels": PyVec([-1] * (n + 1)), "m_basins": PyVec([-1] * n),
                     "m_outlets": PyVec(), "m_pits": PyVec(), "m_base_levels": frozenset(bset),
-                    "m_mask_initialized": False})
+                    "m_mask_initialized": bool(mask), "m_mask": PyVec([i in mask for i in range(n)])})
                 ev = Elev(list(elev))
-                w = PipeWorld(adj, bset, gobj, (bgrec[0], bgfn[0]))
+                w = PipeWorld(adj, bset, gobj, (bgrec[0], bgfn[0]), mask)
                 it = Interp(w, max_steps=2000000)
                 this = Obj(ap.cls, {"m_basin_graph_ptr": None,
                                     "m_op_ptr": Obj(MST, {"m_route_method": route[rname], "m_basin_method": meth[mname]})})
@@ -213,13 +217,33 @@ def _work(task):
                     bad_p.append("out-of-bounds access: %s" % str(ex)[8:110])
                 if not bad_p:
                     fin = list(ev)
+                    # nodes connected to a base level through unmasked neighbours (the others are exempt)
+                    reach = set(b for b in bset if b not in mask)
+                    grow = True
+                    while grow:
+                        grow = False
+                        for u in list(reach):
+                            for v in adj[u]:
+                                if v not in mask and v not in reach:
+                                    reach.add(v)
+                                    grow = True
+                    for mi in sorted(mask):
+                        if fin[mi] != elev[mi]:
+                            bad_l.append("masked node %d changed from %r to %r" % (mi, elev[mi], fin[mi]))
+                        if R.get((mi, 0)) != mi:
+                            bad_p.append("masked node %d drains to %r" % (mi, R.get((mi, 0))))
                     # C01: paths
                     for i in range(n):
+                        if i in mask or i not in reach:
+                            continue
                         cur, steps = i, 0
                         while True:
                             nxt = R.get((cur, 0))
                             if not isinstance(nxt, int) or not (0 <= nxt < n):
                                 bad_p.append("receiver of node %d is %r" % (cur, nxt))
+                                break
+                            if nxt in mask:
+                                bad_p.append("node %d drains into the masked node %d" % (cur, nxt))
                                 break
                             if nxt == cur:
                                 if cur not in bset:
@@ -240,19 +264,21 @@ def _work(task):
                         if bad_p:
                             break
                     # C02: levels
-                    M = {b: elev[b] for b in bset}
+                    M = {b: elev[b] for b in bset if b not in mask}
                     changed = True
                     while changed:
                         changed = False
                         for u in list(M):
                             for v in adj[u]:
-                                if v in bset:
+                                if v in bset or v in mask:
                                     continue
                                 cand = max(M[u], elev[v])
                                 if v not in M or cand < M[v]:
                                     M[v] = cand
                                     changed = True
                     for v in range(n):
+                        if v in mask or v not in reach:
+                            continue
                         if v in bset:
                             if fin[v] != elev[v]:
                                 bad_l.append("base level %d changed from %r to %r" % (v, elev[v], fin[v]))
@@ -265,7 +291,8 @@ def _work(task):
                         elif not (M[v] <= fin[v] <= hi):
                             bad_l.append("node %d ends at %.17g, its spill level is %.17g (margin: %d increments)"
                                          % (v, fin[v], M[v], n))
-                label = "[%s] %s / %s on %s, base levels %s, elevation %s" % (uname, mname, rname, gname, base, list(elev))
+                label = "[%s] %s / %s on %s, base levels %s%s, elevation %s" % (
+                    uname, mname, rname, gname, base, (", masked %s" % sorted(mask)) if mask else "", list(elev))
                 out.append((label, bad_p, bad_l))
     return out
 
@@ -319,6 +346,11 @@ def run_rule(db, chk, uname, rid_paths, rid_levels, deep=True):
         n = len(adj)
         for base in [[0], [n - 1], [0, n - 1]] + ([[1]] if n > 3 else []):
             tasks.append((gname, adj, base))
+            # one masked node (not a base level); quick tier: on the 4-node path only
+            if n > 3 and (thorough or gname == "path-4"):
+                for mk in range(n):
+                    if mk not in base:
+                        tasks.append((gname, adj, base, [mk]))
     n_sc = 0
     nbad = {rid_paths: 0, rid_levels: 0, None: 0}
     for results in _map_tasks(ctx, tasks, parallel=thorough):
